@@ -9,7 +9,7 @@ import random
 import subprocess
 
 from checks.common import EXIT_HARNESS, EXIT_OK, EXIT_VIOLATION, Reporter, confirm_minimise_report, default_workers, run_regressions, still_fails
-from simkit.core import Evidence, log, read_replay, run_seed, write_replay
+from simkit.core import mark_cover, reach_report, Evidence, log, read_replay, run_seed, write_replay
 from simkit.pool import ZygotePool, unwrap
 from worlds import ampworld
 
@@ -87,6 +87,7 @@ def main(tier: str, seed: int, opts) -> int:
     log(f"[C20] VERIF_SEED={seed} tier={tier} files={len(slim)} hashseeds={hashseeds} pristine_calls={len(ref_jobs)} history_runs={len(hist_jobs)}")
     with ZygotePool(workers=default_workers(), hashseeds=hashseeds, preload="worlds.ampworld") as pool:
         n_reg = run_regressions(rep, pool, PROP)
+        mark_cover(ref_jobs)
         results = pool.map(ref_jobs + hist_jobs, progress="C20")
         refs = {}
         for key, r in zip(ref_keys, results[: len(ref_jobs)]):
@@ -201,6 +202,7 @@ def main(tier: str, seed: int, opts) -> int:
             fresh_checked = fresh_interpreter_crosscheck(rep, slim, histories[: cfg["fresh_interpreters"]], hist_obs)
         samples = [{"pool_files": [{"name": f["name"], "tags": f.get("tags"), "text": f["text"][:600]} for f in pool_files[:2]],
                     "history": histories[0]["ops"], "hashseed": histories[0]["hashseed"], "clock_deltas": histories[0]["clock"]}]
+    cover_hits = set(pool.cover_hits)
     ev.cov.update({
         "evaluations": ops_in_histories,
         "distinct_nontrivial": len(abstract),
@@ -225,6 +227,7 @@ def main(tier: str, seed: int, opts) -> int:
                               "file_rewritten_between_calls": sum(1 for h in histories for o in h["ops"] if (o.get("inner") or o).get("content"))},
         "simulated_time": {"clock_reads": clock_reads, "clock_jumps": clock_jumps},
         "regression_replays_run": n_reg,
+        "anchored_code_reach": reach_report(PROP, cover_hits),
         "log_digest": digest.hexdigest(),
         "components": {"real": ["decaylanguage.modeling (three reader classes, both converters)", "lark", "particle (incl. the one-time special-particle table load)", "pandas"],
                        "simulated": ["process life (order of calls)", "interpreter hash seed (one zygote interpreter per value)", "wall clock", "stdout", "option files in memory"],
